@@ -116,6 +116,7 @@ class HistoryRunner:
                 for name, n in w.engine.routine_calls.items():
                     ctx.count('sql_routine:' + name, n)
                 result['ops'] = [h['op'] + ':' + h['outcome'].split(':')[0] for h in fz.history]
+                ctx.count('worker_job_started_overtook_schedule_job', getattr(fz, 'early_job_started', 0))
                 pm = next((m for m in self.monitors if hasattr(m, 'flags')), None)
                 if pm is not None:
                     ctx.count('histories_free_of_known_patterns' if not pm.flags else 'histories_with_known_patterns')
